@@ -66,15 +66,20 @@ class BAMOnlineMerger:
         self.start = start
         self.end = end
         # fetch uses 0-based semi-closed interval
-        self.alignment_iterators = [skip_records_without_reference_span(
-            bp[0].fetch(self.chr_id, self.start, self.end + 1, multiple_iterators=self.multiple_iterators))
-            for bp in self.bam_pairs]
+        self.alignment_iterators = [skip_records_without_reference_span(self._fetch(bp[0])) for bp in self.bam_pairs]
         self.current_elements = PriorityQueue(len(self.alignment_iterators))
         for i, it in enumerate(self.alignment_iterators):
             try:
                 self.current_elements.put_nowait(make_alignment_tuple(i, next(it)))
             except StopIteration:
                 pass
+
+    def _fetch(self, bam):
+        try:
+            return bam.fetch(self.chr_id, self.start, self.end + 1, multiple_iterators=self.multiple_iterators)
+        except ValueError:
+            # pysam: invalid contig - the header of this file does not list the sequence, so it has no alignment on it
+            return iter(())
 
     def get(self):
         while not self.current_elements.empty():
@@ -248,8 +253,7 @@ class AlignmentCollector:
         self.chr_record = chr_record
         self.illumina_bam = illumina_bam
 
-        self.bam_merger = BAMOnlineMerger(self.bam_pairs, self.chr_id, 0,
-                                          self.bam_pairs[0][0].get_reference_length(self.chr_id),
+        self.bam_merger = BAMOnlineMerger(self.bam_pairs, self.chr_id, 0, self.get_chromosome_length(),
                                           multiple_iterators=not self.params.high_memory)
         self.strand_detector = StrandDetector(self.chr_record)
         self.read_groupper = read_groupper
@@ -257,6 +261,16 @@ class AlignmentCollector:
         self.polya_fixer = PolyAFixer(self.params)
         self.cage_finder = CagePeakFinder(params.cage, params.cage_shift)
         self.alignment_stat_counter = EnumStats()
+
+    def get_chromosome_length(self):
+        # the largest length among the files whose header lists the sequence (a file that does not list it raises KeyError)
+        lengths = []
+        for bam_pair in self.bam_pairs:
+            try:
+                lengths.append(bam_pair[0].get_reference_length(self.chr_id))
+            except KeyError:
+                pass
+        return max(lengths, default=0)
 
     def process(self):
         alignment_storage = BAMAlignmentStorage(self.bam_merger) if not self.params.high_memory else InMemoryAlignmentStorage()
